@@ -71,6 +71,13 @@ def gate_round_trip(ck: Checker, m, it, types, ids, arity, R='C16.GATE-RT'):
     ck.rule(R, 'gate-level round trip: _encode_gate then _decode_gate folded for every type of the format and every operand identifier pattern (ascending, descending, repeated) on a recording bit stream: the decoded gate computes the same function of the same operand gates (operand order matters for the order-sensitive types), nothing left unread')
     it.overrides['cirbo.core.circuit.gate.Gate'] = FakeGate
     it._globals_cache.clear()
+    # (the two helpers are private: the gate-level fold knows them by the parameter lists they have on the pinned tree; written
+    # another way, the clause is left to the round trip of whole circuits, C16.RT, whose family has every type of the format with
+    # ascending, descending and repeated operands)
+    sig = lambda name: [a.arg for a in m.func(name).args.args] if name in m.functions else None  # noqa: E731
+    if sig('_encode_gate') is None or sig('_decode_gate') is None or len(sig('_encode_gate')) != 4 or sig('_decode_gate')[1:] != ['word_size', 'gates', 'circuit']:
+        ck.notes.setdefault('structural_rules_not_applicable', []).append(f'gate-level round trip: _encode_gate{sig("_encode_gate")} / _decode_gate{sig("_decode_gate")} are not the helpers the fold knows [left to C16.RT]')
+        return 0
     eg = RepoFunc(it, m, m.func('_encode_gate'))
     dg = RepoFunc(it, m, m.func('_decode_gate'))
     n = 0
